@@ -313,6 +313,13 @@ fn plan10(seed: u64, run: u64, tier: Tier) -> Plan10 {
         program = format!("{}{}", head, program);
         tags.push("planted-multiline".into());
     }
+    // the reference comment is the very last bytes of the file (no final newline) in some runs
+    let ref_text = if !ref_text.is_empty() && !lookalike && rng.chance(1, 4) {
+        tags.push("ref-at-end-of-file".into());
+        ref_text.trim_end_matches('\n').to_string()
+    } else {
+        ref_text
+    };
     tags.push(format!("ref:{ref_kind}"));
     // benign plan: short reads + EINTR
     let mut benign = FaultPlan::default();
